@@ -125,6 +125,71 @@ func shapes() []shape {
 	}
 }
 
+// burst: while the catch event is listening, n non-matching events followed by the matching one
+// are delivered without waiting in between, from one goroutine (back-to-back) or each from its
+// own goroutine. Every delivery must return and the listener must continue exactly once.
+func burstBody(kind string, maxNoise int, perGoroutine bool) func() {
+	ev := sig
+	if kind == "message" {
+		ev = msg
+	}
+	sh := shapes()[0]
+	g := sh.build(ev)
+	defs := g.Parse()
+	return func() {
+		n := verifrt.Choose(maxNoise + 1)
+		r := drv.Open(g, defs, drv.OpenOpts{})
+		var w *drv.Wait
+		r.AfterStart = func() { w = r.WaitComplete(nil) }
+		r.StartAll()
+		verifrt.WaitIdle()
+		if r.Listening["ca"] != 1 {
+			h.Fail("C11/burst/listening", "the catch event is not listening after start")
+			return
+		}
+		returned := 0
+		send := func(ref string) {
+			if kind == "message" {
+				r.Message(ref)
+			} else {
+				r.Signal(ref)
+			}
+			returned++
+		}
+		if perGoroutine {
+			for i := 0; i < n; i++ {
+				go send("X")
+			}
+			go send("A")
+		} else {
+			go func() {
+				for i := 0; i < n; i++ {
+					send("X")
+				}
+				send("A")
+			}()
+		}
+		verifrt.WaitIdle()
+		if returned != n+1 {
+			h.Fail("C11/burst/consume-returns", "%d of %d ConsumeEvent calls returned (burst of %d non-matching events then the matching one); live: %v", returned, n+1, n, verifrt.LiveRepoGoroutines())
+			return
+		}
+		if got := r.Requests("ta"); got != 1 {
+			clause := "does-not-continue"
+			if got > 1 {
+				clause = "continues-too-often"
+			}
+			h.Fail("C11/burst/"+clause, "after %d non-matching events and the matching one delivered in a burst, the task after the catch event was requested %d times (events observed by the node: %d)", n, got, r.Observed["ca"])
+			return
+		}
+		r.Answer(r.Pending("ta"))
+		verifrt.WaitIdle()
+		if w == nil || !w.Returned || !w.Result {
+			h.Fail("C11/burst/completes", "the instance does not complete after the burst")
+		}
+	}
+}
+
 func init() {
 	h.Register("C11", func(tier string) ([]*h.Scn, []*h.Plain) {
 		var out []*h.Scn
@@ -161,6 +226,25 @@ func init() {
 					sc.Weight = n * n * (1 + 100*d)
 					if d == 1 {
 						sc.Split = 8
+					}
+					out = append(out, sc)
+				}
+			}
+		}
+		for _, kind := range []string{"signal", "message"} {
+			for _, per := range []bool{false, true} {
+				mode := "back-to-back"
+				if per {
+					mode = "concurrent"
+				}
+				for _, d := range []int{0, 1} {
+					if d == 1 && kind == "message" && !thorough {
+						continue
+					}
+					sc := &h.Scn{Name: fmt.Sprintf("C11/burst/%s/%s/noise<=7/d%d", kind, mode, d), Body: burstBody(kind, 7, per), Opts: verifrt.Options{Bound: d, UseCache: true}}
+					sc.Weight = 8 * (1 + 100*d)
+					if d == 1 {
+						sc.Split = 4
 					}
 					out = append(out, sc)
 				}
